@@ -24,6 +24,7 @@ func TestMain(m *testing.M) {
 	}
 	kvh.Install(gIO)
 	kvh.StartMemoryWatchdog()
+	kvh.StartDeadlockWatchdog()
 	code := m.Run()
 	os.Exit(code)
 }
@@ -167,7 +168,13 @@ func TestReplay(t *testing.T) {
 		st := kvh.StatsFor(c.Property)
 		st.Eval(1)
 		st.Label("replayed-regression-case")
-		if fail := rp(&c, raw); fail != nil {
+		// the watchdogs (unbounded allocation, deadlock) report the file being replayed; replayers that register a
+		// case of their own while they run simply replace it
+		rawCopy := raw
+		kvh.SetInFlight(&kvh.InFlight{Property: c.Property, Case: func() any { return json.RawMessage(rawCopy) }})
+		fail := rp(&c, raw)
+		kvh.SetInFlight(nil)
+		if fail != nil {
 			st.Violation(fail.Sig, raw, fail.Msg)
 			fmt.Printf("REPLAY-FAIL file=%s property=%s sig=%s\n%s\n", f, c.Property, fail.Sig, fail.Msg)
 			t.Errorf("replay of %s fails: %s", f, fail.Sig)
